@@ -197,7 +197,21 @@ def is_lambda(a_function: CallableT) -> bool:
 
     :return: True if condition is defined as lambda function
     """
-    return a_function.__name__ == "<lambda>"
+    return getattr(a_function, "__name__", None) == "<lambda>"
+
+
+def _name_of(condition: CallableT) -> str:
+    """Give the name of the condition which is not a lambda (a function, a partial or any callable object)."""
+    name = getattr(condition, "__name__", None)
+    if name is None and hasattr(condition, "func"):
+        # functools.partial
+        name = getattr(getattr(condition, "func"), "__name__", None)
+
+    if name is None:
+        name = type(condition).__name__
+
+    assert isinstance(name, str)
+    return name
 
 
 class ConditionLambdaInspection:
@@ -628,7 +642,7 @@ def represent_condition(condition: CallableT) -> str:
     """Represent the condition as a string."""
     lambda_inspection = None  # type: Optional[ConditionLambdaInspection]
     if not is_lambda(a_function=condition):
-        condition_repr = condition.__name__
+        condition_repr = _name_of(condition)
     else:
         # We need to extract the source code corresponding to the decorator since inspect.getsource() is broken with
         # lambdas.
@@ -651,7 +665,7 @@ def generate_message(contract: Contract, resolved_kwargs: Mapping[str, Any]) -> 
 
     lambda_inspection = None  # type: Optional[ConditionLambdaInspection]
     if not is_lambda(a_function=contract.condition):
-        condition_text = contract.condition.__name__
+        condition_text = _name_of(contract.condition)
     else:
         # We need to extract the source code corresponding to the decorator since inspect.getsource() is broken with
         # lambdas.
